@@ -32,6 +32,8 @@ impl UnixStream {
     }
 
     fn do_connect(path: &UnixStr, timeout: Option<Duration>) -> Result<Self> {
+        // Validate the path first, so there's no open socket to leak if it's unusable
+        let addr = SocketAddressUnix::try_from_unix(path)?;
         let fd = rusl::network::socket(
             AddressFamily::AF_UNIX,
             SocketOptions::new(
@@ -40,7 +42,6 @@ impl UnixStream {
             ),
             0,
         )?;
-        let addr = SocketAddressUnix::try_from_unix(path)?;
         if let Err(e) = sock_nonblock_op_poll_if_not_ready(
             fd,
             Errno::EAGAIN,
@@ -59,6 +60,8 @@ impl UnixStream {
     /// # Errors
     /// Various OS errors relating to permissions, and missing paths
     pub fn try_connect(path: &UnixStr) -> Result<Option<Self>> {
+        // Validate the path first, so there's no open socket to leak if it's unusable
+        let addr = SocketAddressUnix::try_from_unix(path)?;
         let fd = rusl::network::socket(
             AddressFamily::AF_UNIX,
             SocketOptions::new(
@@ -67,7 +70,6 @@ impl UnixStream {
             ),
             0,
         )?;
-        let addr = SocketAddressUnix::try_from_unix(path)?;
         match rusl::network::connect_unix(fd, &addr) {
             Ok(()) => {}
             Err(e) if e.code == Some(Errno::EAGAIN) => {
@@ -116,6 +118,8 @@ impl UnixListener {
     /// # Errors
     /// Various OS errors relating to permissions, and missing paths
     pub fn bind(path: &UnixStr) -> Result<Self> {
+        // Validate the path first, so there's no open socket to leak if it's unusable
+        let addr = SocketAddressUnix::try_from_unix(path)?;
         let fd = rusl::network::socket(
             AddressFamily::AF_UNIX,
             SocketOptions::new(
@@ -124,7 +128,6 @@ impl UnixListener {
             ),
             0,
         )?;
-        let addr = SocketAddressUnix::try_from_unix(path)?;
         if let Err(e) = rusl::network::bind_unix(fd, &addr) {
             let _ = rusl::unistd::close(fd);
             return Err(e.into());
@@ -133,7 +136,6 @@ impl UnixListener {
             let _ = rusl::unistd::close(fd);
             return Err(e.into());
         }
-        rusl::network::listen(fd, NonNegativeI32::MAX)?;
         Ok(Self(OwnedFd(fd)))
     }
 
@@ -387,7 +389,10 @@ impl TcpListener {
             let _ = rusl::unistd::close(fd);
             return Err(e.into());
         }
-        rusl::network::listen(fd, NonNegativeI32::MAX)?;
+        if let Err(e) = rusl::network::listen(fd, NonNegativeI32::MAX) {
+            let _ = rusl::unistd::close(fd);
+            return Err(e.into());
+        }
         Ok(Self(OwnedFd(fd)))
     }
     /// Get this socket's local bind address
